@@ -79,6 +79,24 @@ Example C36_nonvacuous :
   /\ expand_aliases demo_map [] (EIdent 4) = Err ErrSyntax.
 Proof. repeat split; vm_compute; reflexivity. Qed.
 
+(** Known finding deep-nesting-stack-overflow (documentation; a stack overflow is Rust runtime
+    behaviour, no Gallina lemma can witness it).  Observed on the unchanged tree, harness build,
+    child thread with a fixed 8 MiB stack: every linear-time deep form parses up to depth 1000;
+    fileset 'f(' towers and all template towers overflow the stack at depth 3000, the other forms
+    (fileset / revset operator and pattern chains, fileset parentheses) at depth 10000; real CLI:
+    jj file list '$(python3 -c 'print('('*5000+'a'+')'*5000)')' aborts with
+    'thread 'main' has overflowed its stack'.  The check classifies exactly: overflow and nesting
+    >= DEEP = 500 -> known finding; anything else that is not Ok / Err -> violation. *)
+Example C36_deep_nesting_observed :
+  (  C36.knownb (CDeep 1 [40] [97] [41] 10000 5) = true        (* ((((...a...)))) depth 10000, overflow *)
+  /\ C36.knownb (CDeep 1 [40] [97] [41] 300 5) = false     (* an overflow at depth 300 is a violation *)
+  /\ C36.okb (CDeep 1 [40] [97] [41] 300 5) = false
+  /\ C36.knownb (CDeep 2 [45; 40] [97] [41] 10000 2) = false (* a panic is never demoted *)
+  /\ C36.knownb (CDeep 0 [126] [97] [] 10000 4) = false      (* nor a timeout *)
+  /\ nest_depth (deep_text [120; 58] [97] [] 700) = 700
+  /\ C36.okb (CDeep 0 [126] [97] [] 1000 0) = true)%N.
+Proof. repeat split; vm_compute; reflexivity. Qed.
+
 Print Assumptions C36_alias_terminates.
 Print Assumptions C36_alias_result.
 Print Assumptions C36_unescape_total.
